@@ -74,7 +74,7 @@ void harness(void) {
 #elif FN == 6      /* cif_container_set_value */
     c = mk_container(-1); rc = cif_value_create(CIF_NA_KIND, &v); V_ASSUME(rc == CIF_OK);
     rc = cif_container_set_value(c, NA, v); post(rc);
-    if (rc != CIF_OK) { senv_benign = 1; rc2 = cif_container_set_value(c, NA, v); V_ASSERT(rc2 == CIF_OK, "a following valid call is not refused"); senv_benign = 0; }
+    if (rc != CIF_OK && entry_level == 0) { senv_benign = 1; rc2 = cif_container_set_value(c, NA, v); V_ASSERT(rc2 == CIF_OK, "a following valid call is not refused"); senv_benign = 0; }
 #elif FN == 7      /* cif_container_remove_item */
     c = mk_container(-1);
     rc = cif_container_remove_item(c, NA); post(rc);
